@@ -433,7 +433,7 @@ func c15(c *wk.Ctx) {
 // events seen on one connection for that identifier are: nothing (the service never became ready) or
 // exactly one serviceAdded followed by exactly one serviceRemoved.
 func c15race(c *wk.Ctx) {
-	c.Cases("race", c.Pick(40, 1200), func(i int, rng *rand.Rand) {
+	c.Cases("race", c.Pick(40, 4000), func(i int, rng *rand.Rand) {
 		w, err := newWorld("unix", nil)
 		if err != nil {
 			c.Inconclusive("race", i, "world: "+err.Error())
@@ -742,7 +742,7 @@ func c15seq(c *wk.Ctx) {
 			c.Sample(map[string]interface{}{"stream": stream, "sequence": symbols, "trace": trace})
 		}
 	}
-	c.Cases("seq", c.Pick(3000, 60000), func(i int, rng *rand.Rand) {
+	c.Cases("seq", c.Pick(3000, 300000), func(i int, rng *rand.Rand) {
 		l := 1 + rng.Intn(8)
 		symbols := make([]string, l)
 		for k := range symbols {
@@ -784,7 +784,7 @@ var c15model = porcupine.Model{
 }
 
 func c15conc(c *wk.Ctx) {
-	c.Cases("conc", c.Pick(500, 20000), func(i int, rng *rand.Rand) {
+	c.Cases("conc", c.Pick(500, 60000), func(i int, rng *rand.Rand) {
 		w, err := newWorld("unix", nil)
 		if err != nil {
 			c.Inconclusive("conc", i, "world: "+err.Error())
